@@ -92,6 +92,9 @@ M2=[ # second batch (with an optional anchor: the edit is made at the first occu
  ("C12","gossip/gossip.go","			set := map[string]*protobufcompiled.Gossiper{g.signer.Address(): gossiper}\n			g.gossipVertex(ctx, vg, set)","			set := map[string]*protobufcompiled.Gossiper{}\n			g.gossipVertex(ctx, vg, set)","origin forwards with an empty verified set"),
  ("C14","accountant/accountant.go","			case *Vertex:\n				cVrx <- vrx\n			default:\n				break leavesLoop\n			}\n			vertices, _, err := ab.dag.AncestorsWalker(l)","			case *Vertex:\n				_ = vrx\n			default:\n				break leavesLoop\n			}\n			vertices, _, err := ab.dag.AncestorsWalker(l)","StreamDAG does not send the tips themselves"),
  ("C14","accountant/accountant.go","		}\n		close(cVrx)\n	}(cVrx)","		}\n	}(cVrx)","StreamDAG never closes the stream"),
+ ("C16","dataprovider/dataprovider.go","	if !ok {\n		return false\n	}\n","	_ = ok\n","a challenge is accepted for an address that was never issued one (empty data equals the zero value)"),
+ ("C16","dataprovider/dataprovider.go","	return bytes.Equal(data, d.raw)","	return bytes.Equal(data[:len(data)/2], d.raw[:len(data)/2]) || len(data) == len(d.raw)","a challenge of the right length is accepted whatever its bytes"),
+ ("C16","dataprovider/dataprovider.go","	if d.timestamp < time.Now().UnixNano() {\n		return false\n	}\n","","expired challenges stay valid"),
 ]
 N=[ # neutral edits: every check must stay at exit 0
  ("accountant/accountant.go","	validatedLeafs := make([]*Vertex, 0, 2)\n","	validatedLeafs := make([]*Vertex, 0, 2)\n	ab.log.Debug(\"validating the parents of an incoming leaf\")\n","add a log line"),
